@@ -6,6 +6,9 @@
    every matching function; the assumptions the chunk cache needs about it are stated where used
    (`monotone`, `key_determines`). *)
 From Coq Require Import Permutation Sorted.
+(* the pattern layer (C01) is imported first, so that nothing below changes its meaning *)
+From Fzf Require Import AlgoSpec AlgoModel QuerySpec PatternModel PatternKeyModel PatternProofs PatternFinal
+                        PatternMonoBasics PatternMonotone PatternMonoExamples.
 From Fzf Require Import Prelude RankSpec RankModel MergerModel RankProofs MergerProofs.
 From Fzf Require Import SearchSpec ChunkStoreModel CacheModel MatcherModel ChunkStoreProofs CacheProofs MatcherProofs ViewProofs.
 Open Scope Z_scope.
@@ -177,10 +180,131 @@ Print Assumptions publish_view_ranked.
 Print Assumptions rank_order_bridge.
 Print Assumptions last_request_wins.
 
+(* ================= the assumptions about the matching function, for fzf's own Pattern ================= *)
+(* `monotone` and `key_determines` were assumptions of the theorems above.  For fzf's own patterns they are theorems.
+
+   [fz_env co sc o cin tac parts] (proofs/PatternMonotone.v) is the environment in which
+     a pattern is a query (ANY string of runes, a literal TAB included) + the cache generation it was built under;
+     an item is an index + ANY string of runes;
+     e_matchf p x   = Pattern.MatchItem of C01's model of pattern.go (BuildPattern + parseTerms + extendedMatch /
+                      basicMatch over the matchers of algo.go) on the whole line: Some score when it matches;
+     e_cacheable p  = Pattern.cacheable as BuildPattern's loop computes it (model/PatternKeyModel.v) from its `cacheable`
+                      argument [cin] (opts.Filter == nil);   e_ckey p = Pattern.CacheKey() (buildCacheKey);
+     the search options [o] (--exact, --algo, +x, case mode, --literal, slab size) are those of the session.
+   Hypotheses, all about Go's character tables / the scoring scheme, none about fzf's code:
+     the four of C01's matchers_decide_holds (normalizeRune is the identity below U+00C0, bonuses, classes), and
+     [fold_laws co]: six laws relating unicode.ToLower and normalizeRune (see proofs/PatternMonoBasics.v) - e.g.
+     "normalisation never turns an upper-case letter into a lower-case one", "neither function produces a TAB".
+     They hold for every rune 0..0x10FFFF of Go's tables (checked on every run by the harness: c13mono.go). *)
+Theorem monotone_of_fzf_patterns : forall (co : char_ops) (sc : scheme) (o : popts) (cin tac : bool) (parts : nat),
+  fold_laws co -> (forall c, c < 192 -> co_norm co c = c) ->
+  bonusBoundary <= s_bw sc -> bonusBoundary <= s_bd sc -> (forall c, 0 <= co_class co c) ->
+  (p_extended o = true \/ basic_law co) ->
+  monotone (fz_env co sc o cin tac parts).
+Proof.
+  intros co sc o cin tac parts HL H1 H2 H3 H4 H5. apply monotone_fzf; [exact HL| |exact H5].
+  apply matchers_decide_closed; auto. apply (fl_idem co HL).
+Qed.
+
+Theorem key_determines_of_fzf_patterns : forall (co : char_ops) (sc : scheme) (o : popts) (cin tac : bool) (parts : nat),
+  fold_laws co -> key_determines (fz_env co sc o cin tac parts).
+Proof. exact key_determines_fzf. Qed.
+
+(* ... and nothing narrower than the code's `cacheable` was assumed: in extended mode the model's flag is true exactly
+   when BuildPattern was told so and every group of the parsed query is ONE positive term of the session's plain
+   kind (fuzzy, or exact under --exact); such a term is its whole token, folded (classify_plain). *)
+Theorem fzf_cacheable_exact : forall (co : char_ops) (o : popts) (cin : bool) (p : fzpat), p_extended o = true ->
+  (fz_prop co o (pat_cacheable cin) false p = true <->
+   cin = true /\ forall g, In g (gs_of co o (fq p)) ->
+                 exists t, g = [t] /\ t_inv t = false /\ t_kind t = plain_kind (qopts_of o)).
+Proof. exact cacheable_exact. Qed.
+
+(* Hence, under extended-search mode, Pattern.Match through the ChunkCache IS the uncached filter and keeps the cache
+   invariant, with no assumption left about the matching function (cache_inv_preserved, instantiated). *)
+Theorem fzf_cache_unobservable : forall (co : char_ops) (sc : scheme) (o : popts) (cin tac : bool) (parts : nat)
+    (content : nat -> list fzitem) (c : cache (fzitem * Z)) (p : fzpat) ch,
+  let E := fz_env co sc o cin tac parts in
+  fold_laws co -> (forall c, c < 192 -> co_norm co c = c) ->
+  bonusBoundary <= s_bw sc -> bonusBoundary <= s_bd sc -> (forall c, 0 <= co_class co c) ->
+  p_extended o = true ->
+  cache_inv E content c -> gen_ok E p c -> chunk_ok content ch ->
+  fst (pattern_match E c p ch) = match_items E p (snd ch) /\
+  cache_inv E content (snd (pattern_match E c p ch)) /\ gen_ok E p (snd (pattern_match E c p ch)) /\
+  c_gen (snd (pattern_match E c p ch)) = c_gen c.
+Proof.
+  intros co sc o cin tac parts content c p ch E HL H1 H2 H3 H4 He Hinv Hgen Hok.
+  apply (pattern_match_sound E content); auto.
+  - reflexivity.
+  - apply monotone_of_fzf_patterns; auto.
+  - apply key_determines_of_fzf_patterns; auto.
+Qed.
+
+(* FINDING.  Under --no-extended (+x) `monotone` is FALSE, for a character table that agrees with Go's on
+   U+0130 (İ: ToLower = i, normalizeRune = I) and U+00E9 (é -> e) and satisfies every hypothesis above:
+   the pattern text is not normalised under +x, so the query "İ" (case-sensitive by smart case, accent-folding because
+   its lower-casing has no accent) matches nothing, while "İé" (an accent: compared literally) matches the line "İé";
+   the cache key "İ" is a proper prefix of the key "İé", so Search narrows "İé" to the (empty) cached result of "İ". *)
+Theorem monotone_basic_refuted :
+  let E := fz_env mono_co scheme_default (mono_o false) true false 8 in
+  let p := mkFzPat [304] 0 in
+  let p' := mkFzPat [304; 233] 0 in
+  let x := mk_item 0 [304; 233] eq_refl in
+  fold_laws mono_co /\ matchers_decide mono_co scheme_default /\
+  sub_query E p' p /\ e_matchf E p' x <> None /\ e_matchf E p x = None /\ ~ monotone E.
+Proof. exact monotone_basic_refuted_proof. Qed.
+
+Print Assumptions monotone_of_fzf_patterns.
+Print Assumptions key_determines_of_fzf_patterns.
+Print Assumptions fzf_cacheable_exact.
+Print Assumptions fzf_cache_unobservable.
+Print Assumptions monotone_basic_refuted.
+
+(* non-vacuity: the hypotheses are satisfiable together (mono_co, the default scheme), "ab" is cacheable, its key is a
+   proper prefix of the keys of "abc" and of the non-cacheable "'abC", all three match "xabCx" *)
+Example monotone_of_fzf_patterns_nonvacuous :
+  let E := fz_env mono_co scheme_default (mono_o true) true false 8 in
+  let p := mkFzPat [97; 98] 0 in
+  let p1 := mkFzPat [97; 98; 99] 0 in
+  let p2 := mkFzPat [39; 97; 98; 67] 0 in
+  let x := mk_item 7 [120; 97; 98; 67; 120] eq_refl in
+  fold_laws mono_co /\ matchers_decide mono_co scheme_default /\
+  sub_query E p1 p /\ sub_query E p2 p /\
+  e_cacheable E p2 = false /\ e_ckey E p2 = [97; 98; 67] /\
+  e_matchf E p2 x <> None /\ e_matchf E p1 x <> None /\ e_matchf E p x <> None.
+Proof. exact mono_nonvacuous_proof. Qed.
+
+(* "ab c" and " ab  c " are different patterns (mergerCache keys differ) with the same cache key "ab\tc" *)
+Example key_determines_of_fzf_patterns_nonvacuous :
+  let E := fz_env mono_co scheme_default (mono_o true) true false 8 in
+  let p1 := mkFzPat [97; 98; 32; 99] 0 in
+  let p2 := mkFzPat [32; 97; 98; 32; 32; 99; 32] 0 in
+  let x := mk_item 7 [99; 97; 120; 98] eq_refl in
+  e_pgen E p1 = e_pgen E p2 /\ e_cacheable E p1 = true /\ e_cacheable E p2 = true /\
+  e_ckey E p1 = [97; 98; 9; 99] /\ e_ckey E p2 = [97; 98; 9; 99] /\
+  e_pkey E p1 <> e_pkey E p2 /\ e_matchf E p1 x = e_matchf E p2 x /\ e_matchf E p1 x <> None.
+Proof. exact keydet_nonvacuous_proof. Qed.
+
+(* the law --no-extended would need is false of mono_co exactly where it is false of Go's table *)
+Example basic_law_fails_at_U0130 : ~ basic_law mono_co.
+Proof. exact mono_co_not_basic. Qed.
+
 (* UNPROVED (nothing of C13's theorem list is left open; what remains is assumed, and named where used):
    UNPROVED hist_ok_from_coordinator : the requests core.go sends satisfy `hist_ok` (coordinator model: C08's CoordModel)
-   UNPROVED monotone_of_fzf_patterns : `monotone` / `key_determines` for fzf's real Pattern (C08 term_monotone)
-   NOT A THEOREM: data-race freedom of the Go code (race detector, thorough tier; known finding R1). *)
+     What `req_ok` asks of a request, clause by clause, against C08's CoordModel and its 23-clause `Inv`:
+     (1) Forall chunk_ok (r_chunks req)  - a full chunk of a request holds `content id`.  Not a coordinator fact: CoordModel's
+         chunk list is a list of items without identities.  It is the composition of snapshot_immutable / full_never_mutated
+         above with "the chunks of a request are a Snapshot"; that composition is not written.
+     (2) coherent: within one revision, equal counts mean equal items, and one query string is one pattern.  True of every
+         CoordModel schedule (LPush only appends, restart empties the list AND bumps the major revision, a changed --nth /
+         denylist bumps the minor one, a snapshot copies the list together with its revision) but NOT a consequence of `Inv`,
+         whose clauses order the request ids (i_c1..i_c6, i_b*: the counterpart of rule_seq / last_request_wins) and bound
+         the snapshot revision (i_srev): a history invariant over all requests posted so far is needed.
+     (3) l_glast <= pgen (r_pat req) <= c_gen cache: cache generations (ChunkCache.Invalidate before the patterns of a new
+         --nth / denylist are built, patterns built on the coordinator's goroutine in Matcher.Reset) do not exist in
+         CoordModel at all.
+   NOT A THEOREM: data-race freedom of the Go code (race detector, thorough tier; known finding R1).
+   monotone / key_determines: proved for fzf's Pattern above (whole-line matching; --nth / --with-nth token matching
+   is outside C01's pattern model); monotone under --no-extended: refuted (monotone_basic_refuted). *)
 
 (* ================= non-vacuity and regression witnesses ================= *)
 Section Examples.
